@@ -17,7 +17,7 @@ def jobs(ctx, props):
     quick = ctx.quick()
     for name, desc in E.items():
         for targets in (['A'], ['A', 'B']):
-            if quick and len(targets) == 2 and name in ('diamond', 'join', 'task-analysis-task'):
+            if quick and len(targets) == 2 and name in ('diamond', 'join', 'task-analysis-task', 'shared-input'):
                 reqs = 1
             else:
                 reqs = 2
